@@ -6,6 +6,7 @@ pub mod c02;
 pub mod c03;
 pub mod c04;
 pub mod c05;
+pub mod c06;
 pub mod c09;
 #[cfg(not(feature = "inproc"))]
 pub mod c12;
@@ -41,6 +42,7 @@ table! {
     "C03" => c03::C03,
     "C04" => c04::C04,
     "C05" => c05::C05,
+    "C06" => c06::C06,
     "C09" => c09::C09,
     #[cfg(not(feature = "inproc"))]
     "C12" => c12::C12,
